@@ -583,7 +583,7 @@ impl Since {
                 EpochNumberWithFraction::from_full_value_unchecked(value),
             )),
             //0b0100_0000
-            0x4000_0000_0000_0000 => Some(SinceMetric::Timestamp(value * 1000)),
+            0x4000_0000_0000_0000 => Some(SinceMetric::Timestamp(value.saturating_mul(1000))),
             _ => None,
         }
     }
@@ -714,7 +714,7 @@ impl<DL: HeaderFieldsProvider> SinceVerifier<DL> {
                         self.parent_median_time(&info.block_hash)
                     };
                     let current_median_time = self.block_median_time(&parent_hash);
-                    if current_median_time < base_timestamp + timestamp {
+                    if current_median_time < base_timestamp.saturating_add(timestamp) {
                         return Err((TransactionError::Immature { index }).into());
                     }
                 }
